@@ -1049,6 +1049,30 @@ func checkCompile(ref *Resp, o *CLIOutcome, cc *compileCase) *c16Viol {
 		if allowedDir(where) && strings.HasPrefix(op.Op, "mkdir") {
 			continue
 		}
+		// anything that lands INSIDE a requested directory is the wrapper's own
+		// business (temp file + rename, say); what it leaves behind there is
+		// judged by the tree comparison above, not by the op log
+		inside := false
+		for _, d := range cc.dirs {
+			if d == "." || where == d || strings.HasPrefix(where, d+"/") {
+				inside = true
+			}
+		}
+		if op.Path2 != "" && inside {
+			to := op.Path2
+			if op.Real2 != "" {
+				to = op.Real2
+			}
+			inside = false
+			for _, d := range cc.dirs {
+				if d == "." || strings.HasPrefix(to, d+"/") {
+					inside = true
+				}
+			}
+		}
+		if inside {
+			continue
+		}
 		return &c16Viol{"write-elsewhere", fmt.Sprintf("compile issued a write-class operation outside the generators' file set: %s %s", op.Op, op.Path), nil}
 	}
 	return nil
